@@ -3,13 +3,20 @@
    due ones, else the declared initial data; event: the value due in (previous step, t], once), evaluated at every
    BEGIN of every recorded trace, under the hypotheses unique_slots / persistent_complete (outside the quantifier)
    and with the known findings F10, F11, F14, F17 for the remaining input classes.
-   Proved here (C03_partial): no event is delivered twice, none is lost, none is delivered early (timed buffer);
-   a pulled value never comes from an output that is not yet due; pruning the cache never changes what a later step
-   pulls (for non-decreasing output times - the repaired pruning rule, F6); assembling one simulator's inputs
-   touches no other simulator's stores.  Missing: the equality with the reference semantics itself. *)
+   Proved here: no event is delivered twice, none is lost, none is delivered early (timed buffer); a pulled value never
+   comes from an output that is not yet due; the (unpruned) cache returns the most recent value produced so far that is
+   due (C03_cache_returns_most_recent_due_value); pruning the cache is unobservable over whole runs - for every event
+   sequence in which no simulator's output times go back, the scheduler with pruning delivers exactly the same inputs
+   to every step as one that never prunes (C03_pruning_unobservable_over_runs, Sched/PruneRun.v: lockstep relation,
+   thresholds monotone because last-step times never decrease; the repaired pruning rule, F6); assembling one
+   simulator's inputs touches no other simulator's stores.
+   Missing (C03_partial): the equality with the reference semantics for pushed persistent data (cache off) and for the
+   persistent memory.  "Produced so far" is "ever produced": C03_later_outputs_are_not_due - every output a provider
+   delivers after the consumer's BEGIN(j,t) has a delayed output time after t (from C01's guard, monotone progress and
+   the lower-bound invariant). *)
 From Coq Require Import ZArith List Bool Arith.
 Import ListNotations.
-From MV Require Import Time.Spec Static.Build Sched.Timing Sched.Plane Sched.DataP.
+From MV Require Import Time.Spec Static.Build Sched.Timing Sched.Inv Sched.Main Sched.Certify Sched.Quiet Sched.Plane Sched.DataP Sched.PruneRun Sched.Final Sched.Later.
 Open Scope Z_scope.
 
 Theorem C03_partial_events_exactly_once_never_early : forall dt ds i step inp ds',
@@ -40,3 +47,60 @@ Example C03_nonvacuous :
   increasing [(0, [(2%nat, 7)]); (3, [(2%nat, 8)])] /\
   get_output_for [(0, [(2%nat, 7)]); (3, [(2%nat, 8)])] 2 = [(2%nat, 7)].
 Proof. simpl. repeat split; try (intros e [<-|[]]; reflexivity); intros e []. Qed.
+
+(* the cache lookup returns the entry with the largest output time at or before the requested time: the most recent value
+   produced so far that is due (or nothing, if no output is due yet) *)
+Theorem C03_cache_returns_most_recent_due_value : forall outs x, increasing outs ->
+  match find (fun e : Z*odata => fst e <=? x) (rev outs) with
+  | Some e => get_output_for outs x = snd e /\ In e outs /\ fst e <= x /\ (forall e', In e' outs -> fst e' <= x -> fst e' <= fst e)
+  | None => get_output_for outs x = [] /\ forall e', In e' outs -> x < fst e'
+  end.
+Proof. exact get_output_for_latest. Qed.
+Print Assumptions C03_cache_returns_most_recent_due_value.
+
+(* pruning is unobservable: dapply_gen true is the scheduler's data-plane step (C03_dapply_is_the_pruning_step), dapply_gen
+   false the same step without pruning; the inputs delivered along any run with non-decreasing output times coincide *)
+Theorem C03_dapply_is_the_pruning_step : forall st dt sd e, dapply st dt sd e = dapply_gen true st dt sd e.
+Proof. exact dapply_is_gen. Qed.
+Print Assumptions C03_dapply_is_the_pruning_step.
+
+Theorem C03_pruning_unobservable_over_runs : forall st dt, static_ok st -> static_ok2 st -> init_before_until st ->
+  (forall j, increasing (init_outputs dt j)) ->
+  forall evs, mono_run st dt (init_state st) (init_dstate dt) evs ->
+  dinputs true st dt (init_state st) (init_dstate dt) evs = dinputs false st dt (init_state st) (init_dstate dt) evs.
+Proof. exact prune_unobservable. Qed.
+Print Assumptions C03_pruning_unobservable_over_runs.
+
+(* non-vacuity: A (time-based) feeds a non-trigger input of B from the cache; the premises of the theorem hold for this
+   run (certified tables, increasing initial cache, output times 0 then 1), and B receives 7 at time 0 and 8 at time 1 *)
+From MV Require Import Static.Groups Static.Connect Sched.Link.
+Example C03_pruning_nonvacuous :
+  let f := mkF true true true false true 0 false false true in
+  let sc := mkScen [None] (fun _ => 0%nat) (fun _ => TimeBased) 2 [mkConn 0 1 2 0 f false 0] [] 3 100 true true in
+  let evs := [DEv (EvStart 0); DEv (EvStart 1); DBegin 0 [0] 3; DEv (EvStep 0 (Some 1)); DData 0 0 [] [(2%nat,7)]; DBegin 1 [0] 3; DEv (EvStep 1 (Some 1));
+              DBegin 0 [1] 3; DEv (EvStep 0 (Some 2)); DData 0 1 [] [(2%nat,8)]; DBegin 1 [1] 3; DEv (EvStep 1 (Some 2))] in
+  match prepare 100 sc with
+  | Prepared st dt t anc =>
+      check_static sc t anc = true /\ check_static2 sc t = true /\ init_before_untilb st = true /\ (forall j, increasing (init_outputs dt j)) /\
+      mono_run st dt (init_state st) (init_dstate dt) evs /\
+      dinputs true st dt (init_state st) (init_dstate dt) evs =
+        [None; None; Some []; None; None; Some [(0%nat, [(0%nat, Some 7)])]; None; Some []; None; None; Some [(0%nat, [(0%nat, Some 8)])]; None]
+  | _ => False end.
+Proof.
+  vm_compute prepare. cbv beta iota.
+  split; [vm_compute; reflexivity|]. split; [vm_compute; reflexivity|]. split; [vm_compute; reflexivity|].
+  split; [intros j; vm_compute; exact I|]. split; [|vm_compute; reflexivity].
+  vm_compute. repeat split; try (apply le_n || apply le_S, le_n);
+    intros e He; repeat (destruct He as [<-|He]); try contradiction; intros Hc; discriminate Hc.
+Qed.
+
+(* what a provider delivers after the consumer has begun its step at t is not due at or before t: the value found at the
+   BEGIN is the most recent one that will ever be due *)
+Theorem C03_later_outputs_are_not_due : forall st, static_ok st -> forall s j t m s',
+  reached st s -> apply st s (EvBegin j t m) = Ok s' ->
+  forall evs l, run st s' evs = Ok l ->
+  forall r sr k ot ports sr', nth_error evs r = Some (EvData k ot ports) -> nth_error (s' :: l) r = Some sr -> apply st sr (EvData k ot ports) = Ok sr' ->
+  forall d, In (k, d) (indel st j) ->
+  exists c, cur (sr k) = Some c /\ tlt t (act (out_time st k c ot) d) = true.
+Proof. exact later_outputs_are_later. Qed.
+Print Assumptions C03_later_outputs_are_not_due.
